@@ -101,7 +101,8 @@ func genClients(ts *sim.Tapes, cfg work.Config, prop, tier string) (prelude *wor
 				steps = append(steps, work.Step{Kind: "pause", Reader: t.Intn(25)})
 				// Reader encodes the variant: 0 WriteTo, 1 CopyFile, 2 WriteTo with WriteFlag, 3 WriteFlag while the
 				// path has been replaced by another file; +10: hold the tx for a while before copying
-				steps = append(steps, work.Step{Kind: "backup", Reader: t.Pick(3, 2, 1, 1) + 10*t.Pick(2, 1)})
+				// 4: WriteTo into a writer that fails part-way; 5: CopyFile to a device that is full
+				steps = append(steps, work.Step{Kind: "backup", Reader: t.Pick(6, 4, 2, 2, 1, 1) + 10*t.Pick(2, 1)})
 			}
 			clients = append(clients, steps)
 		}
@@ -461,6 +462,12 @@ func (ss schedsim) runInBubble(c *Case, dir string, out *Outcome) {
 			}
 		}
 	}
+	if n := m.probes["backup-writer-fails"]; n > 0 {
+		out.fault("backup-destination-writer-fails", n)
+	}
+	if n := m.probes["backup-device-full"]; n > 0 {
+		out.fault("backup-destination-device-full", n)
+	}
 	out.Viol = append(out.Viol, m.viol...)
 	out.merge(m.probes)
 	out.Evals = 1
@@ -792,6 +799,26 @@ func (w *yieldWriter) Write(p []byte) (int, error) {
 	return w.buf.Write(p)
 }
 
+// failingWriter accepts limit bytes and then fails (a full or broken destination).
+type failingWriter struct {
+	limit, n int64
+	t        *sim.Task
+	s        *sim.Sched
+}
+
+func (w *failingWriter) Write(p []byte) (int, error) {
+	if !w.s.Draining {
+		w.t.Pause("backup.write")
+	}
+	if w.n+int64(len(p)) > w.limit {
+		k := int(w.limit - w.n)
+		w.n = w.limit
+		return k, sim.ErrInjectedENOSPC
+	}
+	w.n += int64(len(p))
+	return len(p), nil
+}
+
 func (ss schedsim) backup(m *mtWorld, e *work.Exec, ci, si int, st *work.Step, t *sim.Task) {
 	fail := func(class, f string, a ...any) { m.fail("C14", class, f, a...) }
 	lastRetAtInvoke := m.lastRet
@@ -824,6 +851,32 @@ func (ss schedsim) backup(m *mtWorld, e *work.Exec, ci, si int, st *work.Step, t
 	os.Remove(dst)
 	defer os.Remove(dst)
 	switch variant {
+	case 4, 5:
+		// the destination fails: the copy must say so (a truncated backup reported as success is no backup)
+		var cerr error
+		what := ""
+		if variant == 4 {
+			limit := []int64{0, 40, int64(m.cfg.PageSize) + 100, 2*int64(m.cfg.PageSize) + 1, size / 2, size - 1}[(ci+si+id)%6]
+			if limit >= size {
+				limit = size - 1
+			}
+			fw := &failingWriter{limit: limit, t: t, s: m.s}
+			_, cerr = tx.WriteTo(fw)
+			what = fmt.Sprintf("WriteTo into a writer that fails after %d of %d bytes", limit, size)
+			m.probes["backup-writer-fails"]++
+		} else {
+			cerr = tx.CopyFile("/dev/full", 0600)
+			what = "CopyFile to /dev/full (every write fails with ENOSPC)"
+			m.probes["backup-device-full"]++
+		}
+		if cerr == nil {
+			fail("copy-error-swallowed", "%s returned nil: an incomplete copy is reported as success", what)
+		}
+		m.openTx--
+		if rerr := tx.Rollback(); rerr != nil {
+			fail("rollback-error", "Rollback: %v", rerr)
+		}
+		return
 	case 1:
 		if err := tx.CopyFile(dst, 0600); err != nil {
 			fail("copy-error", "CopyFile: %v", err)
@@ -999,7 +1052,7 @@ func init() {
 		Rule:   "one evaluation = one seeded multi-task run: 1-2 writer tasks and 1-5 reader tasks of different ages on one DB, pre-empted at hook points by tape decisions; each reader dumps its whole view in chunks (yielding inside ForEach) repeatedly while writers commit, roll back, reuse pages, grow and remap, and every dump must equal the model version of the reader's txid; the txid must not be older than the newest commit that had returned when Begin was invoked. distinct_nontrivial = distinct schedule fingerprints (hash of the (task, hook point) decision sequence) among runs with at least one commit and one pre-emption",
 		Assume: []string{"interleavings below hook granularity are not explored", "Go memory-model races are invisible under token scheduling"}})
 	register(&Info{Prop: "C14", Engine: ss, Level: "exploration", QuickS: 60, ThoroughS: 900, RealStub: real,
-		Rule:   "one evaluation = one seeded multi-task run with 1-2 writer tasks and 1-2 backup tasks: a backup begins a read transaction at a tape-chosen moment (optionally ages it while writers commit), copies it with WriteTo into a writer that yields to the scheduler on every Write call (or CopyFile, or WriteTo with WriteFlag) while writers keep committing, reusing pages, growing and remapping; the copy must have exactly Tx.Size() bytes, decode cleanly (all pages accounted for) to the model version of the backup's txid, open with the real code, dump equal and pass Tx.Check. distinct_nontrivial = distinct schedule fingerprints among runs with a commit and a pre-emption",
+		Rule:   "one evaluation = one seeded multi-task run with 1-2 writer tasks and 1-2 backup tasks: a backup begins a read transaction at a tape-chosen moment (optionally ages it while writers commit), copies it with WriteTo into a writer that yields to the scheduler on every Write call (or CopyFile, or WriteTo with WriteFlag) while writers keep committing, reusing pages, growing and remapping; a copy whose destination fails part-way (a writer that returns an error after a tape-chosen number of bytes; CopyFile to /dev/full) must return an error; otherwise the copy must have exactly Tx.Size() bytes, decode cleanly (all pages accounted for) to the model version of the backup's txid, open with the real code, dump equal and pass Tx.Check. distinct_nontrivial = distinct schedule fingerprints among runs with a commit and a pre-emption",
 		Assume: []string{"interleavings below hook granularity are not explored", "which meta slot wins in the copy is not asserted"}})
 	register(&Info{Prop: "C03", Engine: altEngine{[]Engine{ss, ss, ss, batchsim{}}}, Level: "exploration", QuickS: 60, ThoroughS: 900, RealStub: real,
 		Rule:   "every fourth run index is the Batch arm (batchsim engine under the same scheduler and the fake clock): 1-8 tasks issue DB.Batch calls, plain Update callers compete, and in two thirds of these runs a task calls DB.Close while Batch calls are queued behind a MaxBatchDelay timer, running or still arriving; every call must return once the clock may advance (a call that never returns = lost wake-up), a nil return means its effect is committed exactly once (read after reopening), an error is the call's own or, after Close was invoked, ErrDatabaseNotOpen, and then nothing of the call is committed. The other run indices: one evaluation = one seeded multi-task run: 1-4 writer tasks (Update / Begin+Commit / rollback / failing / panicking bodies), readers, a Stats caller and sometimes a late Close; oracles: never two writer bodies at once, committed ids consecutive, every read of a writer equals the model built from its predecessors in id order plus its own writes, failed bodies leave no trace, porcupine linearizability of the (txid) history stamped with event sequence numbers, deadlock = no enabled task and no timer, Close returns only after open transactions finished. distinct_nontrivial as for C02",
